@@ -706,6 +706,8 @@ struct FieldParser<'a> {
     file: &'a ast::File,
     decl: &'a ast::Decl,
     offset: usize,
+    /// Span length validated so far, counted like `offset`.
+    checked_offset: usize,
     shift: usize,
     chunk: Vec<(usize, usize, &'a ast::Field)>,
     unchecked_code: CodeBlock,
@@ -725,6 +727,7 @@ impl<'a> FieldParser<'a> {
             file,
             decl,
             offset: 0,
+            checked_offset: 0,
             shift: 0,
             chunk: Vec::new(),
             unchecked_code: CodeBlock::default(),
@@ -761,6 +764,7 @@ if len(span) < {size}:
             let unchecked_code = std::mem::take(&mut self.unchecked_code.lines);
             let offset = self.offset;
             self.check_size(offset.to_string());
+            self.checked_offset = offset;
             self.code.lines.extend(unchecked_code);
         }
     }
@@ -768,6 +772,13 @@ if len(span) < {size}:
     fn consume_span(&mut self, keep: usize) {
         if self.offset > 0 {
             self.check_code();
+            // Chunks made of reserved fields only generate no parsing code:
+            // the span length must still be validated before it is consumed.
+            if self.offset > self.checked_offset {
+                let offset = self.offset;
+                self.check_size(offset.to_string());
+            }
+            self.checked_offset = 0;
             let offset = self.offset;
             self.code.append(format!("span = span[{}:]", offset - keep));
             self.offset = 0;
